@@ -93,13 +93,16 @@ Definition ttl_from_deadline (deadline now : Z) : Z :=
   if deadline <=? now then 0 else
     let s := (deadline - now) / sec in if s <? 1 then 1 else s.
 
-(* fixedDomainTtl[host]: Go map lookup, exact string *)
-Definition fixed_ttl_exact (fixed : list (bytes * Z)) (host : bytes) : option Z :=
-  match find (fun p => bytes_eqb (fst p) host) fixed with Some p => Some (snd p) | None => None end.
+(* ParseFixedDomainTtl lower-cases every configured name into a Go map (a later line overwrites an earlier one);
+   the insert path looks up strings.ToLower(host) *)
+Definition parse_fixed (raw : list (bytes * Z)) : list (bytes * Z) := map (fun p => (lower (fst p), snd p)) raw.
+Definition fixed_ttl_model (raw : list (bytes * Z)) (host : bytes) : option Z :=
+  match find (fun p => bytes_eqb (fst p) (lower host)) (rev (parse_fixed raw)) with
+  | Some p => Some (snd p) | None => None end.
 
 (* deadline computed by the insert path (UpdateDnsCacheTtlWithKey's deadline function) *)
 Definition m_deadline (fixed : list (bytes * Z)) (host : bytes) (ttl now : Z) : Z :=
-  match fixed_ttl_exact fixed (strip_dot host) with Some f => now + f * sec | None => now + ttl * sec end.
+  match fixed_ttl_model fixed (strip_dot host) with Some f => now + f * sec | None => now + ttl * sec end.
 (* TTL taken from the reply by NormalizeAndCacheDnsResp_: first answer's TTL, 120 s for an empty reply, clamped to a year *)
 Definition eff_ttl (nans : N) (ttl : Z) : Z :=
   let ttl := if N.eqb nans 0 then min_firefox_cache_ttl else ttl in if ttl >? max_ttl then max_ttl else ttl.
@@ -111,9 +114,10 @@ Definition m_insert (s : mstate) (now : Z) (key : bytes) (host : bytes) (is_ip r
     let odeadline := now + ttl * sec in
     let deadline := m_deadline (c_fixed (m_cfg s)) host ttl now in
     let e := {| e_ans := ans; e_deadline := deadline; e_odeadline := odeadline;
-                e_pttl := ttl_from_deadline deadline now; e_pat := now;   (* prepackResponseBeforeStore *)
-                e_dnano := 0;                                            (* ... which does not store deadlineNano *)
-                e_refreshing := false; e_last := 0 |} in
+                e_pttl := ttl_from_deadline deadline now; e_pat := now;   (* prepackResponseBeforeStore ... *)
+                e_dnano := deadline;                                     (* ... which stores deadlineNano = Deadline *)
+                e_refreshing := false;
+                e_last := now |} in                                      (* an insert counts as a use *)
     {| m_cfg := m_cfg s; m_store := mput key e (m_store s) |}
   else s.
 
@@ -248,13 +252,12 @@ Definition clone_for_reload (e : entry) : entry :=
      e_dnano := if e_dnano e =? 0 then e_deadline e else e_dnano e;
      e_refreshing := false; e_last := e_last e |}.
 
-(* deferred block of backgroundRefresh: LookupDnsRespCache(key,false) evicts an expired entry, otherwise MarkRefreshed *)
+(* deferred block of backgroundRefresh: load the entry, MarkRefreshed when it is refreshing *)
 Definition m_refresh_done (s : mstate) (now : Z) (key : bytes) : mstate :=
   match mfind key (m_store s) with
   | None => s
   | Some e =>
-      if e_deadline e <=? now then {| m_cfg := m_cfg s; m_store := mremove key (m_store s) |}
-      else if e_refreshing e then {| m_cfg := m_cfg s; m_store := mput key (with_refreshing e false) (m_store s) |}
+      if e_refreshing e then {| m_cfg := m_cfg s; m_store := mput key (with_refreshing e false) (m_store s) |}
       else s
   end.
 
@@ -306,7 +309,7 @@ Fixpoint m_run_from (univ : list skey) (s : mstate) (h : list timed) : mstate * 
 Definition m_run (c : cfg) (h : list timed) : mstate * list obs := m_run_from (universe h) (m_init c) h.
 
 (* ------------------------------------------------------------------ projections of a history used in theorem statements *)
-(* the most recent cacheable insert whose cache key is `key`: (answer, deadline given by the insert path),
+(* the most recent cacheable insert whose cache key is `key`: (answer, deadline given by the SPEC),
    following the configuration changes of the history; c = configuration as written at the start of h *)
 Fixpoint last_insert (c : cfg) (h : list timed) (key : bytes) (acc : option (Z * Z)) : option (Z * Z) :=
   match h with
@@ -315,7 +318,7 @@ Fixpoint last_insert (c : cfg) (h : list timed) (key : bytes) (acc : option (Z *
       match o with
       | Insert name qt sc rname is_ip resp_ok nans ans ttl =>
           if resp_ok && negb is_ip && bytes_eqb (key_of name qt sc) key
-          then last_insert c rest key (Some (ans, m_deadline (c_fixed (normalize c)) rname (eff_ttl nans ttl) now))
+          then last_insert c rest key (Some (ans, spec_deadline (c_fixed (effective c)) rname (eff_ttl nans ttl) now))
           else last_insert c rest key acc
       | Reload c' | Reuse c' => last_insert c' rest key acc
       | _ => last_insert c rest key acc
